@@ -36,6 +36,25 @@ func methodSweepOp(name string, mk func() (receivers []interface{}, pool []inter
 	return hOp{name: name, want: "*", run: func(a *arena) string {
 		recv, pool := mk()
 		var called []string
+		// zero values of the same types as further receivers (round 6): an object that was never initialised - a Proof whose
+		// decoding failed, a key struct that was only declared - is something a caller can hold; methods called on it usually
+		// panic half way through (swallowed here), and what they leave behind must not matter to anybody else
+		seenType := map[reflect.Type]bool{}
+		for _, r := range append([]interface{}{}, recv...) {
+			rt := reflect.TypeOf(r)
+			if rt == nil || seenType[rt] {
+				continue
+			}
+			seenType[rt] = true
+			switch rt.Kind() {
+			case reflect.Ptr:
+				if rt.Elem().Kind() == reflect.Struct {
+					recv = append(recv, reflect.New(rt.Elem()).Interface())
+				}
+			case reflect.Struct, reflect.Slice, reflect.Array, reflect.String, reflect.Map:
+				recv = append(recv, reflect.Zero(rt).Interface())
+			}
+		}
 		for _, r := range recv {
 			rv := reflect.ValueOf(r)
 			rt := rv.Type()
